@@ -23,6 +23,7 @@ import (
 	"encoding/json"
 	"fmt"
 	"math/rand"
+	"mime/multipart"
 	"net/http"
 	"net/http/httptest"
 	"net/url"
@@ -198,6 +199,7 @@ func newServer(k cacheKind, withHTTP bool) *server {
 		s.httpS = handler.New(es)
 		s.httpS.SetQueryCache(lru.New[*ast.QueryDocument](64))
 		s.httpS.AddTransport(transport.GET{})
+		s.httpS.AddTransport(transport.MultipartForm{})
 		s.httpS.AddTransport(transport.POST{})
 		s.httpS.Use(extension.AutomaticPersistedQuery{Cache: s.rc})
 	}
@@ -333,8 +335,19 @@ func (s *server) doHTTP(sym *symbol, method string) *outcome {
 			b.WriteString(sep + `"extensions":` + sym.Ext)
 		}
 		b.WriteString("}")
-		req = httptest.NewRequest(http.MethodPost, "/query", &b)
-		req.Header.Set("Content-Type", "application/json")
+		if method == "MULTIPART" {
+			// the upload transport carries the same parameters in its `operations` part
+			var form bytes.Buffer
+			mw := multipart.NewWriter(&form)
+			mw.WriteField("operations", b.String())
+			mw.WriteField("map", "{}")
+			mw.Close()
+			req = httptest.NewRequest(http.MethodPost, "/query", &form)
+			req.Header.Set("Content-Type", mw.FormDataContentType())
+		} else {
+			req = httptest.NewRequest(http.MethodPost, "/query", &b)
+			req.Header.Set("Content-Type", "application/json")
+		}
 	}
 	req = req.WithContext(ctx)
 	rec := httptest.NewRecorder()
@@ -550,7 +563,7 @@ func randomHistories(rep *ev.Reporter, alpha []*symbol, seed int64, count, lengt
 				}
 			}
 			var st runStats
-			runSeq(rep, seqCase{Part: "random", Cache: k.Name, Via: []string{"executor", http.MethodPost, http.MethodGet, "executor"}[(h/3)%4], Mode: h % 3, Seq: names}, syms, &st)
+			runSeq(rep, seqCase{Part: "random", Cache: k.Name, Via: []string{"executor", http.MethodPost, http.MethodGet, "executor", "MULTIPART"}[(h/3)%5], Mode: h % 3, Seq: names}, syms, &st)
 			mu.Lock()
 			flush(rep, "random", &st)
 			total += st.requests
